@@ -125,7 +125,15 @@ fn gen_records(w: &World, kind: Kind, scale: Scale, magic: Option<usize>, edge_d
             string_from(w, id_chars(), 1, 8)
         };
         let desc = if w.chance(1, 2) {
-            let mut d = if scale == Scale::Huge && w.chance(1, 2) {
+            let mut d = if scale == Scale::Huge && w.chance(1, 4) {
+                // a header line of boundary length up to 2 MiB (one drawn character repeated: the
+                // length matters here, not the content)
+                let n = *w.pick(&[65_536usize, 65_535, 65_537, 1 << 20, (1 << 20) + 1, (1 << 20) + 5000, 1 << 21, 300_000]);
+                let c = *w.pick(desc_chars());
+                let c = if c.is_whitespace() { 'x' } else { c };
+                w.probe("header_longer_than_64k");
+                std::iter::repeat(c).take(n).collect()
+            } else if scale == Scale::Huge && w.chance(1, 2) {
                 string_from(w, desc_chars(), 1, 10_000)
             } else {
                 string_from(w, desc_chars(), 1, 12)
